@@ -213,6 +213,78 @@ func buildShared(name string, r *rand.Rand, nv, nr int) *shared {
 	return s
 }
 
+// observableDifference compares what callers can see of one shared object with a fresh parse of its text: String(),
+// Compare against every shared version (both operand positions), membership in every shared range (for a range:
+// membership of every shared version). "" = no difference.
+func (s *shared) observableDifference(kind string, idx int) (diff string) {
+	defer func() {
+		if p := recover(); p != nil {
+			diff = fmt.Sprint("panic: ", p)
+		}
+	}()
+	fe := eco.ByName(s.e.Name)
+	switch kind {
+	case "version":
+		f, err, pn := fe.SafeNewVersion(s.vstr[idx])
+		if pn != nil || err != nil || f == nil {
+			return "its text is no longer accepted"
+		}
+		v := s.vers[idx]
+		if v.String() != f.String() {
+			return "String() = " + quote(v.String()) + ", fresh parse prints " + quote(f.String())
+		}
+		if a, b := v.Compare(f), f.Compare(v); a != 0 || b != 0 {
+			return "Compare(object, fresh parse of its text) = " + itoa(a)
+		}
+		for i, o := range s.vers {
+			if i == idx {
+				continue
+			}
+			if a, b := v.Compare(o), f.Compare(o); a != b {
+				return "Compare with " + quote(s.vstr[i]) + " = " + itoa(a) + ", fresh parse gives " + itoa(b)
+			}
+			if a, b := o.Compare(v), o.Compare(f); a != b {
+				return "Compare of " + quote(s.vstr[i]) + " with it = " + itoa(a) + ", with a fresh parse " + itoa(b)
+			}
+		}
+		for i, rg := range s.rngs {
+			if a, b := rg.Contains(v), rg.Contains(f); a != b {
+				return "range " + quote(s.rstr[i]) + " contains it = " + b2s(a) + ", a fresh parse = " + b2s(b)
+			}
+		}
+	case "range":
+		f, err, pn := fe.SafeNewRange(s.rstr[idx])
+		if pn != nil || err != nil || f == nil {
+			return "its text is no longer accepted"
+		}
+		rg := s.rngs[idx]
+		if rg.String() != f.String() {
+			return "String() = " + quote(rg.String()) + ", fresh parse prints " + quote(f.String())
+		}
+		for i, v := range s.vers {
+			if a, b := rg.Contains(v), f.Contains(v); a != b {
+				return "contains " + quote(s.vstr[i]) + " = " + b2s(a) + ", fresh parse of the range = " + b2s(b)
+			}
+		}
+	default:
+		for i, x := range s.vstr {
+			a, _, _ := s.e.SafeNewVersion(x)
+			b, _, _ := fe.SafeNewVersion(x)
+			if (a == nil) != (b == nil) || a != nil && (a.String() != b.String() || a.Compare(s.vers[i]) != 0) {
+				return "NewVersion(" + quote(x) + ") differs from a fresh ecosystem value"
+			}
+		}
+		for _, x := range s.rstr {
+			a, _, _ := s.e.SafeNewRange(x)
+			b, _, _ := fe.SafeNewRange(x)
+			if (a == nil) != (b == nil) || a != nil && a.String() != b.String() {
+				return "NewVersionRange(" + quote(x) + ") differs from a fresh ecosystem value"
+			}
+		}
+	}
+	return ""
+}
+
 // boundFrom returns one of the strings, half of the time cut at its last '.' or '-' (a less precise bound).
 func boundFrom(vs []string, r *rand.Rand) string {
 	if len(vs) == 0 {
@@ -677,10 +749,29 @@ func runC19(c *core.Ctx, ck *Check) {
 			}
 			// fingerprints of the objects this op touched
 			chk := func(kind string, idx int, now, was uint64) {
-				if now != was && bad < 5 {
+				if now == was {
+					return
+				}
+				// the object's memory changed. That alone is not a violation (a synchronised lazily filled cache is
+				// invisible to callers): it is one when some call can OBSERVE it - the object now answers differently
+				// from a fresh parse of its own text
+				switch kind {
+				case "version":
+					fpV[idx] = now
+				case "range":
+					fpR[idx] = now
+				default:
+					fpE = now
+				}
+				diff := sh.observableDifference(kind, idx)
+				if diff == "" {
+					w.Count("internal_state_changes_without_observable_effect", 1)
+					return
+				}
+				if bad < 5 {
 					bad++
 					w.Report(core.Violation{Eco: name, Op: "fingerprint", Args: []string{opNames[o.Kind], argText(spec, o, 0), argText(spec, o, 1)}, Rule: "call-modified-" + kind,
-						Got: "deep fingerprint of " + kind + " #" + itoa(idx) + " changed across the call", Want: "unchanged"})
+						Got: "memory of " + kind + " #" + itoa(idx) + " changed across the call and the object now answers differently from a fresh parse: " + diff, Want: "unchanged"})
 				}
 			}
 			switch o.Kind {
@@ -877,8 +968,11 @@ func evalC19(c *core.Ctx, e *eco.Eco, op string, args []string) []core.Violation
 			out = append(out, core.Violation{Eco: e.Name, Op: "repeat", Args: []string{opNames[o.Kind], argText(spec, o, 0), argText(spec, o, 1)}, Rule: "repeated-call-differs", Got: r2, Want: r1})
 		}
 		if o.Kind == 0 || o.Kind == 2 || o.Kind == 4 {
-			if fingerprint(sh.vers[o.A].Raw()) != fp[o.A] {
-				out = append(out, core.Violation{Eco: e.Name, Op: "fingerprint", Args: []string{opNames[o.Kind], argText(spec, o, 0)}, Rule: "call-modified-version"})
+			if now := fingerprint(sh.vers[o.A].Raw()); now != fp[o.A] {
+				fp[o.A] = now
+				if d := sh.observableDifference("version", o.A); d != "" {
+					out = append(out, core.Violation{Eco: e.Name, Op: "fingerprint", Args: []string{opNames[o.Kind], argText(spec, o, 0)}, Rule: "call-modified-version", Got: d})
+				}
 			}
 		}
 	}
